@@ -88,3 +88,61 @@ Proof.
   apply valid_dateb_true in Va, Vb.
   rewrite !rs_day_number_eq by lia. reflexivity.
 Qed.
+
+Lemma rs_pd_ranges a b : dt_pair a b -> 1 <= p_year a -> p_wall a < p_wall b -> in_ranges (rs_precise_diff a b true).
+Proof. intros P Hy Hlt. apply (spec_ranges a b); [assumption|assumption|]. apply rs_pd_spec; assumption. Qed.
+
+Lemma in_months_of_components d e : iv_in_months (iv_components d e) = 12 * pd_years d + pd_months d.
+Proof. unfold iv_components. cbn [iv_in_months]. unfold C_MONTHS_PER_YEAR. lia. Qed.
+
+(* ---------- the defects of the current code, by computation on the faithful models ---------- *)
+Definition naive_dt (y m d hh mm ss us : Z) : pdt := mkpdt y m d hh mm ss us 0 false 0 0 true.
+Definition aware_dt (y m d hh mm ss us off obj : Z) : pdt := mkpdt y m d hh mm ss us off true 0 obj true.
+
+Definition rebuilds (a b : pdt) (r : pdiff) : Prop :=
+  pd_add_duration a (pd_years r) (pd_months r) 0 (pd_days r) (pd_hours r) (pd_minutes r) (pd_seconds r) (pd_microseconds r) = Ok b.
+
+Lemma dt_pair_naive y1 m1 d1 y2 m2 d2 :
+  valid_dateb y1 m1 d1 = true -> valid_dateb y2 m2 d2 = true -> dt_pair (naive_dt y1 m1 d1 0 0 0 0) (naive_dt y2 m2 d2 0 0 0 0).
+Proof. intros V1 V2. unfold dt_pair, wf_op, wf_time, naive_dt; cbn. repeat split; auto; lia. Qed.
+
+(* 2021-05-02 -> 2021-06-01: "1 month 0 days", and start + 1 month = 2021-06-02 *)
+Lemma rebuild_refuted : exists a b r, dt_pair a b /\ p_wall a <= p_wall b /\ py_precise_diff a b = Ok r /\ in_ranges r /\ ~ rebuilds a b r.
+Proof.
+  exists (naive_dt 2021 5 2 0 0 0 0), (naive_dt 2021 6 1 0 0 0 0), (mkPD 0 1 0 0 0 0 0 30).
+  split; [apply dt_pair_naive; reflexivity|]. split; [vm_compute; discriminate|]. split; [vm_compute; reflexivity|].
+  split; [unfold in_ranges; cbn; lia|]. unfold rebuilds. vm_compute. discriminate.
+Qed.
+
+(* 2021-01-30 -> 2021-02-27: "1 month", start + 1 month = 2021-02-28 (the arm is wrong also when the start day exceeds the end month) *)
+Lemma rebuild_refuted_clamped : exists a b r, dt_pair a b /\ p_wall a <= p_wall b /\ py_precise_diff a b = Ok r /\ ~ rebuilds a b r.
+Proof.
+  exists (naive_dt 2021 1 30 0 0 0 0), (naive_dt 2021 2 27 0 0 0 0), (mkPD 0 1 0 0 0 0 0 28).
+  split; [apply dt_pair_naive; reflexivity|]. split; [vm_compute; discriminate|]. split; [vm_compute; reflexivity|].
+  unfold rebuilds. vm_compute. discriminate.
+Qed.
+
+(* the same witness through the Rust model *)
+Lemma rs_rebuild_refuted : exists a b, dt_pair a b /\ p_wall a <= p_wall b /\ ~ rebuilds a b (rs_precise_diff a b true).
+Proof.
+  exists (naive_dt 2021 5 2 0 0 0 0), (naive_dt 2021 6 1 0 0 0 0).
+  split; [apply dt_pair_naive; reflexivity|]. split; [vm_compute; discriminate|]. unfold rebuilds. vm_compute. discriminate.
+Qed.
+
+(* a genuine clamp is rebuilt: 2021-01-31 -> 2021-02-28 is "1 month" and start + 1 month = 2021-02-28 *)
+Example rebuild_genuine_clamp :
+  py_precise_diff (naive_dt 2021 1 31 0 0 0 0) (naive_dt 2021 2 28 0 0 0 0) = Ok (mkPD 0 1 0 0 0 0 0 28) /\
+  rebuilds (naive_dt 2021 1 31 0 0 0 0) (naive_dt 2021 2 28 0 0 0 0) (mkPD 0 1 0 0 0 0 0 28).
+Proof. split; vm_compute; reflexivity. Qed.
+
+(* cross-zone: 2021-03-01T00:30+01:00 vs 2021-04-01T00:00Z — Python 1 month 3 days 30 min, Rust 1 month 0 days 30 min *)
+Lemma rs_cross_zone_refuted : exists a b,
+  py_precise_diff a b = Ok (mkPD 0 1 3 0 30 0 0 31) /\ rs_precise_diff a b true = mkPD 0 1 0 0 30 0 0 31.
+Proof.
+  exists (aware_dt 2021 3 1 0 30 0 0 3600 2), (aware_dt 2021 4 1 0 0 0 0 0 1). split; vm_compute; reflexivity.
+Qed.
+
+(* the hypotheses of the theorems are satisfiable *)
+Example domain_inhabited : dt_pair (naive_dt 2020 2 29 23 59 59 999999) (naive_dt 2021 3 1 0 0 0 0) /\
+  p_wall (naive_dt 2020 2 29 23 59 59 999999) < p_wall (naive_dt 2021 3 1 0 0 0 0).
+Proof. split; [unfold dt_pair, wf_op, wf_time, naive_dt; cbn; repeat split; auto; lia | vm_compute; reflexivity]. Qed.
